@@ -36,13 +36,14 @@ Section Rel.
   Variable sc : bool.
   Variable ranged : bool.
   Variable devplugs : list plug.
+  Variable script0 : list stmt.
+  Variable ps0 : option (list plug).
+  Variable args0 : option nat.
+  Variable diag0 : bool.
 
   Notation ctx_ok := (ctx_ok ranged).
-
-  (* result shape shared by the handlers that only touch the flags of the top context *)
-  Definition rel_res (r r' : sres) : Prop :=
-    let '(fin, d1, a1, st1, ev1) := r in let '(fin', d1', a1', st1', ev1') := r' in
-    fin = fin' /\ d1 = d1' /\ st1 = st1' /\ ev1 = ev1' /\ aeq a1 a1'.
+  Notation good := (good ranged devplugs script0 ps0 args0 diag0).
+  Notation frame := (frame ranged script0 ps0 args0 diag0).
 
   Section H.
     Variables (now : Z) (d : sdev) (a a' : action) (store : list arglist) (e e' : ctx) (rest rest' : list ctx).
@@ -51,6 +52,22 @@ Section Rel.
     Hypothesis Hr : Forall2 ceq rest rest'.
     Hypothesis Hd : dst a a'.
     Hypothesis Ex : a_exec a = e :: rest.
+
+    (* identical results, related actions; and when the round stops here at a delay statement the two delay_starts agree *)
+    Definition dl_ok (a1 a1' : action) : Prop :=
+      a_delay_start a1 = a_delay_start a1' \/ (forall e1 r1 us, a_exec a1 = e1 :: r1 -> cur e1 <> Some (Delay us))
+      \/ (length (a_exec a) < length (a_exec a1))%nat.
+    Definition rel_res (r r' : sres) : Prop :=
+      let '(fin, d1, a1, st1, ev1) := r in let '(fin', d1', a1', st1', ev1') := r' in
+      fin = fin' /\ d1 = d1' /\ st1 = st1' /\ ev1 = ev1' /\ aeq a1 a1' /\ dl_ok a1 a1'.
+    Lemma rel_res_intro fin d0 st ev a1 a1' : aeq a1 a1' -> dl_ok a1 a1' -> rel_res (fin, d0, a1, st, ev) (fin, d0, a1', st, ev).
+    Proof. intros H K. unfold rel_res. repeat split; try apply H. exact K. Qed.
+    Lemma nd_top x e1 a0 : cur e1 = Some x -> (forall us, x <> Delay us) -> dl_ok (put_top e1 rest a0) (put_top e1 rest a0) -> True.
+    Proof. auto. Qed.
+    Lemma dl_top x e1 (a0 a0' : action) e1' r' : cur e1 = Some x -> (forall us, x <> Delay us) -> dl_ok (put_top e1 rest a0) (put_top e1' r' a0').
+    Proof. intros Hc Hn. right. left. intros e2 r2 us E. injection E as <- _. rewrite Hc. intros K. injection K as K. exact (Hn us K). Qed.
+    Lemma dl_same x a0' : cur e = Some x -> (forall us, x <> Delay us) -> a_exec a = e :: rest -> forall a0, a_exec a0 = a_exec a -> dl_ok a0 a0'.
+    Proof. intros Hc Hn E a0 E0. right. left. intros e2 r2 us E2. rewrite E0, E in E2. injection E2 as <- _. rewrite Hc. intros K. injection K as K. exact (Hn us K). Qed.
 
     Lemma nodelay_rest : Forall nodelay (a_exec a) -> Forall nodelay rest.
     Proof. rewrite Ex. intros H. exact (Forall_inv_tail H). Qed.
@@ -78,18 +95,19 @@ Section Rel.
       intros Hx. pose proof He as (Epl & Eb & Ep & Ei & Epr). pose proof Hf as (F1 & F2 & F3 & F4 & F5 & F6 & F7).
       assert (Hnd : forall b, nodelay (set_processing b e)).
       { intros b. right. intros us. change (cur (set_processing b e)) with (cur e). rewrite Hx. discriminate. }
+      assert (G : forall b fin d0 ev, rel_res (fin, d0, put_top (set_processing b e) rest a, store, ev) (fin, d0, put_top (set_processing b e') rest' a', store, ev)).
+      { intros b fin d0 ev. apply rel_res_intro.
+        - apply top_rel; [exact Hf|repeat split; assumption|apply dst_keep, Hnd].
+        - apply (dl_top (Send fmt)); [exact Hx|discriminate]. }
       unfold process_send, send_arg, tele. rewrite <- Epr, <- Epl, <- F2, <- F4.
       destruct (c_processing e).
-      - destruct (sd_to d); intros H; injection H as <-; eexists; (split; [reflexivity|]); repeat split;
-          try (apply top_rel; [exact Hf|repeat split; assumption|apply dst_keep, Hnd]).
+      - destruct (sd_to d); intros H; injection H as <-; eexists; (split; [reflexivity|apply G]).
       - destruct (hsprintf1 fmt _) as [str|]; [|discriminate].
         destruct (Nat.ltb _ _).
         + destruct SEND_OVERRUN_ASSERT; [discriminate|]. cbn [sd_to set_to].
-          destruct (lastn _ _); intros H; injection H as <-; eexists; (split; [reflexivity|]); repeat split;
-            try (apply top_rel; [exact Hf|repeat split; assumption|apply dst_keep, Hnd]).
+          destruct (lastn _ _); intros H; injection H as <-; eexists; (split; [reflexivity|apply G]).
         + cbn [sd_to set_to].
-          destruct (sd_to d ++ str); intros H; injection H as <-; eexists; (split; [reflexivity|]); repeat split;
-            try (apply top_rel; [exact Hf|repeat split; assumption|apply dst_keep, Hnd]).
+          destruct (sd_to d ++ str); intros H; injection H as <-; eexists; (split; [reflexivity|apply G]).
     Qed.
 
     Hypothesis Ex' : a_exec a' = e' :: rest'.
@@ -97,16 +115,22 @@ Section Rel.
     Lemma same_rel : aeq a a'.
     Proof. split; [exact Hf|]. split; [rewrite Ex, Ex'; constructor; assumption|exact Hd]. Qed.
 
+    Lemma same_res x fin d0 st ev : cur e = Some x -> (forall us, x <> Delay us) ->
+      rel_res (fin, d0, a, st, ev) (fin, d0, a', st, ev).
+    Proof. intros Hx Hn. apply rel_res_intro; [apply same_rel|exact (dl_same x a' Hx Hn Ex a eq_refl)]. Qed.
+
     (* expect *)
-    Lemma expect_rel re r :
+    Lemma expect_rel re r : cur e = Some (Expect re) ->
       process_expect rmatch now d a store re = Ok r ->
       exists r', process_expect rmatch now d a' store re = Ok r' /\ rel_res r r'.
     Proof.
-      pose proof Hf as (F1 & F2 & F3 & F4 & F5 & F6 & F7).
+      intros Hx. pose proof Hf as (F1 & F2 & F3 & F4 & F5 & F6 & F7).
+      assert (G : forall fin d0 st ev, rel_res (fin, d0, a, st, ev) (fin, d0, a', st, ev)).
+      { intros. apply (same_res (Expect re)); [exact Hx|discriminate]. }
       unfold process_expect, tele. cbn [sd_from set_xm]. rewrite <- F2, <- F4.
-      destruct (sd_from d); [intros H; injection H as <-; eexists; split; [reflexivity|]; repeat split; apply same_rel|].
-      destruct (rmatch re _) as [pm|]; [|intros H; injection H as <-; eexists; split; [reflexivity|]; repeat split; apply same_rel].
-      destruct (nth_error pm 0) as [[[so eo]|]|]; intros H; injection H as <-; eexists; (split; [reflexivity|]); repeat split; apply same_rel.
+      destruct (sd_from d); [intros H; injection H as <-; eexists; split; [reflexivity|apply G]|].
+      destruct (rmatch re _) as [pm|]; [|intros H; injection H as <-; eexists; split; [reflexivity|apply G]].
+      destruct (nth_error pm 0) as [[[so eo]|]|]; intros H; injection H as <-; eexists; (split; [reflexivity|apply G]).
     Qed.
 
     (* delay *)
@@ -115,48 +139,53 @@ Section Rel.
       exists r', process_delay sc now d a' store e' rest' us = Ok (r', t) /\ rel_res r r'.
     Proof.
       intros Hx. pose proof He as (Epl & Eb & Ep & Ei & Epr). pose proof Hf as (F1 & F2 & F3 & F4 & F5 & F6 & F7).
+      assert (G : forall (e1 e1' : ctx) (a0 a0' : action) fin ev, afld a0 a0' -> ceq e1 e1' -> a_delay_start a0 = a_delay_start a0' ->
+                 rel_res (fin, d, put_top e1 rest a0, store, ev) (fin, d, put_top e1' rest' a0', store, ev)).
+      { intros e1 e1' a0 a0' fin ev F C D. apply rel_res_intro; [apply top_rel; [exact F|exact C|left; exact D]|left; exact D]. }
       unfold process_delay, tele. rewrite <- Epr, <- F2, <- F4.
       destruct (c_processing e) eqn:Epe.
       - assert (Eds : a_delay_start a = a_delay_start a').
         { apply dst_rest. intros [K|K]; [congruence|exact (K us Hx)]. }
         rewrite <- Eds.
-        destruct (sc || _); intros H; injection H as <- <-; eexists; (split; [reflexivity|]); repeat split;
-          (apply top_rel; [exact Hf|first [exact He|repeat split; try assumption; reflexivity]|left; exact Eds]).
+        destruct (sc || _); intros H; injection H as <- <-; eexists; (split; [reflexivity|]);
+          (apply G; [exact Hf|first [exact He|repeat split; try assumption; reflexivity]|exact Eds]).
       - cbn [a_delay_start set_delay_start].
-        destruct (sc || _); intros H; injection H as <- <-; eexists; (split; [reflexivity|]); repeat split;
-          (apply top_rel; [exact Hf|first [exact He|repeat split; try assumption; reflexivity]|left; reflexivity]).
+        destruct (sc || _); intros H; injection H as <- <-; eexists; (split; [reflexivity|]);
+          (apply G; [exact Hf|first [exact He|repeat split; try assumption; reflexivity]|reflexivity]).
     Qed.
 
     (* setplugstate *)
-    Lemma setplugstate_rel lit pmp smp ints r :
+    Lemma setplugstate_rel lit pmp smp ints r : cur e = Some (SetPlugState lit pmp smp ints) ->
       process_setplugstate rmatch d a store e lit pmp smp ints = Ok r ->
       exists r', process_setplugstate rmatch d a' store e' lit pmp smp ints = Ok r' /\ rel_res r r'.
     Proof.
-      pose proof He as (Epl & _). pose proof Hf as (F1 & F2 & F3 & F4 & F5 & F6 & F7).
+      intros Hx. pose proof He as (Epl & _). pose proof Hf as (F1 & F2 & F3 & F4 & F5 & F6 & F7).
       assert (Eg : get_args store a' = get_args store a) by (apply get_args_same; symmetry; exact F7).
       rewrite (setplugstate_closed rmatch (sd_plugs d) (a_args a) d a store (mkSst (get_args store a) None) e eq_refl eq_refl eq_refl).
       rewrite (setplugstate_closed rmatch (sd_plugs d) (a_args a') d a' store (mkSst (get_args store a') None) e' eq_refl eq_refl eq_refl).
       intros H. injection H as <-. eexists. split; [reflexivity|]. cbn [ss_args]. rewrite Eg, <- Epl.
-      unfold state_args. rewrite Eg, <- F7. repeat split. apply same_rel.
+      unfold state_args. rewrite Eg, <- F7. apply (same_res (SetPlugState lit pmp smp ints)); [exact Hx|discriminate].
     Qed.
 
     (* setresult *)
-    Lemma setresult_rel pmp smp ints r :
+    Lemma setresult_rel pmp smp ints r : cur e = Some (SetResult pmp smp ints) ->
       process_setresult rmatch d a store e pmp smp ints = Ok r ->
       exists r', process_setresult rmatch d a' store e' pmp smp ints = Ok r' /\ rel_res r r'.
     Proof.
-      pose proof Hf as (F1 & F2 & F3 & F4 & F5 & F6 & F7).
+      intros Hx. pose proof Hf as (F1 & F2 & F3 & F4 & F5 & F6 & F7).
       assert (Eg : get_args store a' = get_args store a) by (apply get_args_same; symmetry; exact F7).
+      assert (G : forall fin d0 st ev, rel_res (fin, d0, a, st, ev) (fin, d0, a', st, ev)).
+      { intros. apply (same_res (SetResult pmp smp ints)); [exact Hx|discriminate]. }
       unfold process_setresult. rewrite !sub_strdup_sem, Eg, <- F7, <- F5, <- F2.
-      destruct (capture (model_xm d) pmp) as [pn|]; [|intros H; injection H as <-; eexists; split; [reflexivity|]; repeat split; apply same_rel].
-      destruct (capture (model_xm d) smp) as [str|]; [|intros H; injection H as <-; eexists; split; [reflexivity|]; repeat split; apply same_rel].
-      destruct (find_plug d pn) as [[p0 node]|]; [|intros H; injection H as <-; eexists; split; [reflexivity|]; repeat split; apply same_rel].
-      cbv zeta. destruct (a_args a); [|intros H; injection H as <-; eexists; split; [reflexivity|]; repeat split; apply same_rel].
-      destruct (get_args store a) as [al|]; [|intros H; injection H as <-; eexists; split; [reflexivity|]; repeat split; apply same_rel].
-      destruct (arg_find al node); [|intros H; injection H as <-; eexists; split; [reflexivity|]; repeat split; apply same_rel].
-      destruct (Z.eqb _ RT_SUCCESS); [intros H; injection H as <-; eexists; split; [reflexivity|]; repeat split; apply same_rel|].
+      destruct (capture (model_xm d) pmp) as [pn|]; [|intros H; injection H as <-; eexists; split; [reflexivity|apply G]].
+      destruct (capture (model_xm d) smp) as [str|]; [|intros H; injection H as <-; eexists; split; [reflexivity|apply G]].
+      destruct (find_plug d pn) as [[p0 node]|]; [|intros H; injection H as <-; eexists; split; [reflexivity|apply G]].
+      cbv zeta. destruct (a_args a); [|intros H; injection H as <-; eexists; split; [reflexivity|apply G]].
+      destruct (get_args store a) as [al|]; [|intros H; injection H as <-; eexists; split; [reflexivity|apply G]].
+      destruct (arg_find al node); [|intros H; injection H as <-; eexists; split; [reflexivity|apply G]].
+      destruct (Z.eqb _ RT_SUCCESS); [intros H; injection H as <-; eexists; split; [reflexivity|apply G]|].
       destruct (a_hasdiag a); [|discriminate].
-      intros H; injection H as <-; eexists; split; [reflexivity|]; repeat split; apply same_rel.
+      intros H; injection H as <-; eexists; split; [reflexivity|apply G].
     Qed.
 
     (* foreach *)
@@ -180,11 +209,14 @@ Section Rel.
         rewrite L0, L0', B0, B0', P0, P0', R0, R0'. repeat split; assumption. }
       assert (Hn1 : forall x, nodelay (set_plugitr x e0)).
       { intros x. right. intros us. unfold cur. cbn [c_block c_pos set_plugitr]. rewrite B0, P0. fold (cur e). rewrite Hx. destruct on; discriminate. }
-      destruct (next_plug on _ (itr e)) as [[p i']|]; unfold rel_res; repeat split.
+      destruct (next_plug on _ (itr e)) as [[p i']|]; apply rel_res_intro.
       - split; [exact Hf|]. cbn [a_exec set_exec]. split; [constructor; [apply ceq_refl|constructor; [apply Hc0|exact Hr]]|].
         destruct Hd as [K|K]; [left; exact K|right]. cbn [a_exec set_exec].
         constructor; [left; reflexivity|constructor; [apply Hn1|apply nodelay_rest; exact K]].
+      - right. right. cbn [a_exec set_exec length]. rewrite Ex. cbn [length]. lia.
       - apply top_rel; [exact Hf|apply Hc0|apply dst_keep, Hn1].
+      - apply (dl_top (if on then ForeachNode body else ForeachPlug body)); [|destruct on; discriminate].
+        unfold cur. cbn [c_block c_pos set_plugitr]. rewrite B0, P0. exact Hx.
     Qed.
 
     (* ifon / ifoff *)
@@ -200,20 +232,202 @@ Section Rel.
       assert (Hce : forall b, ceq (set_processing b e) (set_processing b e')) by (intros b; repeat split; assumption).
       destruct (c_processing e) eqn:Epe.
       - rewrite (process_ifonoff_return d a store e rest want body Epe).
-        rewrite (process_ifonoff_return d a' store e' rest' want body (eq_trans (eq_sym Epr) Epe)).
-        intros H; injection H as <-. eexists. split; [reflexivity|]. repeat split.
-        apply top_rel; [exact Hf|apply Hce|apply dst_keep, Hnd].
+        rewrite (process_ifonoff_return d a' store e' rest' want body (eq_sym Epr)).
+        intros H; injection H as <-. eexists. split; [reflexivity|]. apply rel_res_intro.
+        { apply top_rel; [exact Hf|apply Hce|apply dst_keep, Hnd]. }
+        apply (dl_top (if want then IfOn body else IfOff body)); [exact Hx|destruct want; discriminate].
       - rewrite (process_ifonoff_closed d a store e rest want body Epe).
-        rewrite (process_ifonoff_closed d a' store e' rest' want body (eq_trans (eq_sym Epr) Epe)).
+        rewrite (process_ifonoff_closed d a' store e' rest' want body (eq_sym Epr)).
         cbv zeta. rewrite !plug_state_sem, Eg, <- Epl.
         assert (Hs : forall (b : bool), aeq (if b then set_err ACT_EEXPFAIL a else a) (if b then set_err ACT_EEXPFAIL a' else a')).
         { intros [|]; [|apply same_rel]. split; [repeat split; assumption|]. split; [cbn [a_exec set_err]; rewrite Ex, Ex'; constructor; assumption|exact Hd]. }
         destruct (_ || _).
-        + cbn [negb andb]. intros H; injection H as <-. eexists. split; [reflexivity|]. repeat split.
-          split; [exact Hf|]. cbn [a_exec set_exec]. split; [constructor; [apply ceq_refl|constructor; [apply Hce|exact Hr]]|].
-          destruct Hd as [K|K]; [left; exact K|right]. cbn [a_exec set_exec].
-          constructor; [left; reflexivity|constructor; [apply Hnd|apply nodelay_rest; exact K]].
-        + intros H; injection H as <-. eexists. split; [reflexivity|]. repeat split. apply Hs.
+        + cbn [negb andb]. intros H; injection H as <-. eexists. split; [reflexivity|]. apply rel_res_intro.
+          { split; [exact Hf|]. cbn [a_exec set_exec]. split; [constructor; [apply ceq_refl|constructor; [apply Hce|exact Hr]]|].
+            destruct Hd as [K|K]; [left; exact K|right]. cbn [a_exec set_exec].
+            constructor; [left; reflexivity|constructor; [apply Hnd|apply nodelay_rest; exact K]]. }
+          right. right. cbn [a_exec set_exec length]. rewrite Ex. cbn [length]. lia.
+        + intros H; injection H as <-. eexists. split; [reflexivity|]. apply rel_res_intro; [apply Hs|].
+          apply (dl_same (if want then IfOn body else IfOff body) _ Hx); [destruct want; discriminate|exact Ex|].
+          match goal with |- context [if ?c then _ else _] => destruct c end; reflexivity.
     Qed.
   End H.
+
+  Lemma Forall2_cons_inv {A B} (R : A -> B -> Prop) x l l2 :
+    Forall2 R (x :: l) l2 -> exists y l', l2 = y :: l' /\ R x y /\ Forall2 R l l'.
+  Proof. intros H. inversion H; subst. eauto. Qed.
+  Lemma Forall2_len {A B} (R : A -> B -> Prop) l l2 : Forall2 R l l2 -> length l = length l2.
+  Proof. induction 1; cbn [length]; congruence. Qed.
+
+  (* one statement *)
+  Lemma stmt_rel now d a a' store fin d1 a1 st1 ev1 t :
+    aeq a a' -> Forall ctx_ok (a_exec a) -> Forall ctx_ok (a_exec a') -> is_ranged_com (a_com a) = ranged -> sd_plugs d = devplugs ->
+    process_stmt rmatch compress sc now d a store = Ok ((fin, d1, a1, st1, ev1), t) ->
+    exists a1', process_stmt rmatch compress sc now d a' store = Ok ((fin, d1, a1', st1, ev1), t) /\ aeq a1 a1' /\ dl_ok a a1 a1'.
+  Proof.
+    intros (Hf & H2 & Hd) Hc Hc' Hrg Hdp H. unfold process_stmt in *.
+    destruct (a_exec a) as [|e rest] eqn:Ex; [discriminate|].
+    destruct (Forall2_cons_inv _ _ _ _ H2) as (e' & rest' & Ex' & He & Hr). rewrite Ex'.
+    rewrite (ceq_cur _ _ He). destruct (cur e) as [x|] eqn:Hx; [|discriminate].
+    pose proof (Forall_inv Hc) as Hok. assert (Hok' : ctx_ok e') by (rewrite Ex' in Hc'; exact (Forall_inv Hc')).
+    assert (Fin : forall (r r' : sres), rel_res a r r' -> forall tt, Ok (r, tt) = Ok ((fin, d1, a1, st1, ev1), t) ->
+                  exists a1', Ok (r', tt) = Ok ((fin, d1, a1', st1, ev1), t) /\ aeq a1 a1' /\ dl_ok a a1 a1').
+    { intros [[[[f0 d0] a0] s0] e0] [[[[f0' d0'] a0'] s0'] e0'] (<- & <- & <- & <- & Ha & Hl) tt K.
+      injection K as <- <- <- <- <- <-. exists a0'. auto. }
+    destruct x as [fmt|re|lit pmp smp ints|pmp smp ints|us|body|body|body|body].
+    - destruct (process_send compress now d a store e rest fmt) as [r| | | |] eqn:E1; cbn [omap bind] in H; try discriminate H.
+      eapply send_rel in E1; eauto. destruct E1 as (r' & E1' & Hrel). rewrite E1'. cbn [omap bind]. exact (Fin r r' Hrel None H).
+    - destruct (process_expect rmatch now d a store re) as [r| | | |] eqn:E1; cbn [omap bind] in H; try discriminate H.
+      eapply expect_rel in E1; eauto. destruct E1 as (r' & E1' & Hrel). rewrite E1'. cbn [omap bind]. exact (Fin r r' Hrel None H).
+    - destruct (process_setplugstate rmatch d a store e lit pmp smp ints) as [r| | | |] eqn:E1; cbn [omap bind] in H; try discriminate H.
+      eapply setplugstate_rel in E1; eauto. destruct E1 as (r' & E1' & Hrel). rewrite E1'. cbn [omap bind]. exact (Fin r r' Hrel None H).
+    - destruct (process_setresult rmatch d a store e pmp smp ints) as [r| | | |] eqn:E1; cbn [omap bind] in H; try discriminate H.
+      eapply setresult_rel in E1; eauto. destruct E1 as (r' & E1' & Hrel). rewrite E1'. cbn [omap bind]. exact (Fin r r' Hrel None H).
+    - destruct (process_delay sc now d a store e rest us) as [[r tt]| | | |] eqn:E1; try discriminate H.
+      eapply delay_rel in E1; eauto. destruct E1 as (r' & E1' & Hrel). rewrite E1'. exact (Fin r r' Hrel tt H).
+    - destruct (process_foreach d a store e rest false body) as [r| | | |] eqn:E1; cbn [omap bind] in H; try discriminate H.
+      eapply (foreach_rel) with (on := false) in E1; eauto. destruct E1 as (r' & E1' & Hrel). rewrite E1'. cbn [omap bind]. exact (Fin r r' Hrel None H).
+    - destruct (process_foreach d a store e rest true body) as [r| | | |] eqn:E1; cbn [omap bind] in H; try discriminate H.
+      eapply (foreach_rel) with (on := true) in E1; eauto. destruct E1 as (r' & E1' & Hrel). rewrite E1'. cbn [omap bind]. exact (Fin r r' Hrel None H).
+    - destruct (process_ifonoff d a store e rest true body) as [r| | | |] eqn:E1; cbn [omap bind] in H; try discriminate H.
+      eapply (ifonoff_rel) with (want := true) in E1; eauto. destruct E1 as (r' & E1' & Hrel). rewrite E1'. cbn [omap bind]. exact (Fin r r' Hrel None H).
+    - destruct (process_ifonoff d a store e rest false body) as [r| | | |] eqn:E1; cbn [omap bind] in H; try discriminate H.
+      eapply (ifonoff_rel) with (want := false) in E1; eauto. destruct E1 as (r' & E1' & Hrel). rewrite E1'. cbn [omap bind]. exact (Fin r r' Hrel None H).
+  Qed.
+
+  Notation stmt_sim := (stmt_sim rmatch compress sc ranged devplugs script0 ps0 args0 diag0).
+  Notation Inv := (Inv rmatch compress sc ranged devplugs script0 ps0 args0 diag0).
+  Notation outcome_ok := (outcome_ok rmatch compress sc ranged devplugs script0 ps0 args0 diag0).
+
+  (* one do..while round *)
+  Lemma do_while_rel : forall fuel now d a a' store s s' acc tmo fin d1 a1 st1 evs t,
+    aeq a a' -> good d a -> srel s d a store -> good d a' -> srel s' d a' store ->
+    do_while rmatch compress sc fuel now d a store acc tmo = Ok ((fin, d1, a1, st1, evs), t) ->
+    exists a1', do_while rmatch compress sc fuel now d a' store acc tmo = Ok ((fin, d1, a1', st1, evs), t) /\ aeq a1 a1' /\
+                (forall e1 r1 us, a_exec a1 = e1 :: r1 -> cur e1 = Some (Delay us) -> a_delay_start a1 = a_delay_start a1').
+  Proof.
+    induction fuel as [|f IH]; intros now d a a' store s s' acc tmo fin d1 a1 st1 evs t Ha Hg Hs Hg' Hs' H; [discriminate H|].
+    cbn [do_while] in *.
+    destruct (stmt_sim now d a store s Hg Hs) as (fin0 & d0 & a0 & st0 & ev0 & t0 & E & Hsim & Hxm).
+    destruct (stmt_sim now d a' store s' Hg' Hs') as (fin0' & d0' & a0' & st0' & ev0' & t0' & E' & Hsim' & Hxm').
+    rewrite E in H.
+    pose proof Hg as (Hdg & Hdp & (Hrg & Hc & _) & Hne). pose proof Hg' as (_ & _ & (_ & Hc' & _) & Hne').
+    destruct (stmt_rel now d a a' store fin0 d0 a0 st0 ev0 t0 Ha Hc Hc' Hrg Hdp E) as (b0 & E'' & Ha0 & Hdl0).
+    rewrite E' in E''. injection E'' as -> -> -> -> -> ->. rewrite E'.
+    assert (L0 : length (a_exec b0) = length (a_exec a0)) by (symmetry; apply (Forall2_len ceq), Ha0).
+    assert (L : length (a_exec a') = length (a_exec a)) by (symmetry; apply (Forall2_len ceq), Ha).
+    rewrite L, L0.
+    destruct (Nat.ltb_spec (length (a_exec a)) (length (a_exec a0))) as [Lt|Ge].
+    - destruct Hsim as [[_ Hp]|[Hl _]]; [|lia]. destruct Hsim' as [[_ Hp']|[Hl' _]]; [|lia].
+      destruct Hp as (-> & -> & -> & Hfr & Hargs1 & _ & (c & r & _ & _ & Ea1 & _ & _)).
+      destruct Hp' as (_ & _ & _ & Hfr' & Hargs1' & _ & (c' & r' & _ & _ & Ea1' & _ & _)).
+      destruct Hs as (Hsa & _). destruct Hs' as (Hsa' & _).
+      apply (IH now d a0 b0 store s s' (acc ++ []) (min_tmo tmo t0) fin d1 a1 st1 evs t Ha0); auto.
+      + split; [exact Hdg|split; [exact Hdp|split; [exact Hfr|rewrite Ea1; discriminate]]].
+      + split; [rewrite Hsa; symmetry; apply get_args_same; exact Hargs1|right; apply Hxm; exact Lt].
+      + split; [exact Hdg|split; [exact Hdp|split; [exact Hfr'|rewrite Ea1'; discriminate]]].
+      + split; [rewrite Hsa'; symmetry; apply get_args_same; exact Hargs1'|right; apply Hxm'; lia].
+    - injection H as <- <- <- <- <- <-. exists b0. split; [reflexivity|]. split; [exact Ha0|].
+      intros e1 r1 us E1 C1. destruct Hdl0 as [K|[K|K]]; [exact K|exfalso; exact (K e1 r1 us E1 C1)|lia].
+  Qed.
+
+  Lemma delay_start_advance a : a_delay_start (advance a) = a_delay_start a.
+  Proof. unfold advance. destruct (a_exec a) as [|e r]; [reflexivity|]. cbv zeta. destruct (cur _); reflexivity. Qed.
+
+  Lemma advance_exec a e rest : a_exec a = e :: rest ->
+    a_exec (advance a) = match cur (set_pos (S (c_pos e)) e) with Some _ => set_pos (S (c_pos e)) e :: rest | None => rest end.
+  Proof. intros Ex. unfold advance. rewrite Ex. cbv zeta. destruct (cur _); reflexivity. Qed.
+  Lemma advance_nil a : a_exec a = [] -> a_exec (advance a) = [].
+  Proof. intros Ex. unfold advance. rewrite Ex. exact Ex. Qed.
+
+  Lemma advance_rel a a' : aeq a a' -> (forall e1 r1, a_exec a = e1 :: r1 -> c_processing e1 = false) -> aeq (advance a) (advance a').
+  Proof.
+    intros (Hf & H2 & Hd) Hcl. destruct (advance_fields a) as (G1 & G2 & G3 & G4). destruct (advance_fields a') as (G1' & G2' & G3' & G4').
+    split; [|split].
+    - destruct Hf as (F1 & F2 & F3 & F4 & F5 & F6 & F7).
+      assert (K : forall x, a_client (advance x) = a_client x /\ a_hascb (advance x) = a_hascb x /\ a_tele (advance x) = a_tele x).
+      { intros x. unfold advance. destruct (a_exec x) as [|e r]; [auto|]. cbv zeta. destruct (cur _); auto. }
+      destruct (K a) as (K1 & K2 & K3). destruct (K a') as (K1' & K2' & K3').
+      unfold afld. rewrite G1, G2, G3, G4, G1', G2', G3', G4', K1, K2, K3, K1', K2', K3'. repeat split; assumption.
+    - destruct (a_exec a) as [|e rest] eqn:Ex.
+      + destruct (a_exec a') as [|z zs] eqn:Ex'; [|inversion H2]. rewrite (advance_nil a Ex), (advance_nil a' Ex'). constructor.
+      + destruct (Forall2_cons_inv _ _ _ _ H2) as (e' & rest' & Ex' & He & Hr).
+        rewrite (advance_exec a e rest Ex), (advance_exec a' e' rest' Ex').
+        pose proof He as (Epl & Eb & Ep & Ei & Epr).
+        assert (Ec : cur (set_pos (S (c_pos e')) e') = cur (set_pos (S (c_pos e)) e)) by (unfold cur; cbn [c_block c_pos set_pos]; rewrite Eb, Ep; reflexivity).
+        rewrite Ec. destruct (cur (set_pos (S (c_pos e)) e)); [|exact Hr].
+        constructor; [|exact Hr]. unfold ceq. cbn [c_plugs c_block c_pos c_plugitr c_processing set_pos]. rewrite Ep. repeat split; assumption.
+    - unfold dst. rewrite !delay_start_advance. destruct Hd as [K|K]; [left; exact K|right].
+      destruct (a_exec a) as [|e rest] eqn:Ex.
+      + rewrite (advance_nil a Ex). constructor.
+      + rewrite (advance_exec a e rest Ex). destruct (cur (set_pos (S (c_pos e)) e)); [|exact (Forall_inv_tail K)].
+        constructor; [|exact (Forall_inv_tail K)]. left. cbn [c_processing set_pos]. exact (Hcl e rest eq_refl).
+  Qed.
+
+  Lemma step_obs_rel now d fin a1 a1' st evs :
+    aeq a1 a1' -> (forall e1 r1 us, a_exec a1 = e1 :: r1 -> cur e1 = Some (Delay us) -> a_delay_start a1 = a_delay_start a1') ->
+    step_obs now d fin a1' st evs = step_obs now d fin a1 st evs.
+  Proof.
+    intros (Hf & H2 & _) Hdl. unfold step_obs. destruct (a_exec a1) as [|e rest] eqn:Ex.
+    - destruct (a_exec a1') as [|z zs]; [reflexivity|inversion H2].
+    - destruct (Forall2_cons_inv _ _ _ _ H2) as (e' & rest' & -> & He & _). rewrite (ceq_cur _ _ He).
+      destruct (cur e) as [[]|] eqn:Hx; try reflexivity.
+      + rewrite (get_args_same st a1 a1'); [reflexivity|]. symmetry. apply Hf.
+      + rewrite (get_args_same st a1 a1'); [reflexivity|]. symmetry. apply Hf.
+      + rewrite (Hdl e rest _ eq_refl Hx). reflexivity.
+  Qed.
+
+  (* one step of [run] *)
+  Lemma step1_rel s0 s0' i d a a' store tr tr' :
+    Inv s0 d a store tr -> Inv s0' d a' store tr' -> aeq a a' ->
+    exists st d' a2 a2' store' o evs,
+      step1 rmatch compress sc (i_now i) (env_step i d) a store = Ok (st, d', a2, store', o, evs) /\
+      step1 rmatch compress sc (i_now i) (env_step i d) a' store = Ok (st, d', a2', store', o, evs) /\
+      aeq a2 a2' /\ outcome_ok s0 st d' a2 store' (tr ++ o) /\ outcome_ok s0' st d' a2' store' (tr' ++ o).
+  Proof.
+    intros HI HI' Ha.
+    destruct (step1_sim rmatch compress sc ranged devplugs script0 ps0 args0 diag0 s0 i d a store tr HI) as (st & d' & a2 & store' & o & evs & E & Hout & _).
+    destruct (step1_sim rmatch compress sc ranged devplugs script0 ps0 args0 diag0 s0' i d a' store tr' HI') as (st' & d'' & a2' & store'' & o' & evs' & E' & Hout' & _).
+    destruct HI as (Hg & s & Hs & _). destruct HI' as (Hg' & s' & Hs' & _).
+    exists st, d', a2, a2', store', o, evs. split; [exact E|].
+    unfold step1 in E, E' |- *.
+    destruct (do_while rmatch compress sc 8 (i_now i) (env_step i d) a store [] None) as [[[[[[fin d1] a1] st1] ev1] t]| | | |] eqn:Edw; try discriminate E.
+    destruct (do_while_rel 8 (i_now i) (env_step i d) a a' store s s' [] None fin d1 a1 st1 ev1 t Ha Hg Hs Hg' Hs' Edw) as (a1' & Edw' & Ha1 & Hdl).
+    rewrite Edw' in E' |- *. cbv zeta in E, E' |- *.
+    rewrite (step_obs_rel (i_now i) (env_step i d) fin a1 a1' st1 ev1 Ha1 Hdl) in E' |- *.
+    assert (Eerr : a_err a1' = a_err a1) by (symmetry; apply Ha1). rewrite Eerr in E' |- *.
+    destruct fin; cbn [negb] in *.
+    - destruct (Z.eqb (a_err a1) ACT_ESUCCESS) eqn:Ee.
+      + (* the finished statement left its flag clear: from the simulation of this very round *)
+        assert (Hcl : forall e1 r1, a_exec a1 = e1 :: r1 -> c_processing e1 = false).
+        { destruct (do_while_sim rmatch compress sc ranged devplugs script0 ps0 args0 diag0 8 (i_now i) (env_step i d) a store s [] None Hg Hs
+                      (top_levels ranged devplugs script0 ps0 args0 diag0 _ _ Hg)) as (f2 & d2 & a2x & st2 & ev2 & t2 & E2 & Hstep).
+          rewrite Edw in E2. injection E2 as <- <- <- <- <- <-.
+          unfold step_post in Hstep. cbv zeta in Hstep. destruct Hstep as (_ & _ & Hstep). rewrite Ee in Hstep.
+          destruct Hstep as (_ & _ & _ & _ & (e1 & r1 & Ex1 & Hp1)). intros e2 r2 Ex2. rewrite Ex1 in Ex2. injection Ex2 as <- _. exact Hp1. }
+        pose proof (advance_rel a1 a1' Ha1 Hcl) as Hadv.
+        assert (Elen : length (a_exec (advance a1')) = length (a_exec (advance a1))) by (symmetry; apply (Forall2_len ceq), Hadv).
+        destruct (a_exec (advance a1)) as [|x1 y1] eqn:Ea; destruct (a_exec (advance a1')) as [|x1' y1'] eqn:Ea'; try discriminate Elen;
+          injection E as <- <- <- <- <- <-; injection E' as <- <- <- <- <- <-; (split; [reflexivity|]); (split; [exact Hadv|]); split; assumption.
+      + injection E as <- <- <- <- <- <-; injection E' as <- <- <- <- <- <-. split; [reflexivity|]. split; [exact Ha1|]. split; assumption.
+    - injection E as <- <- <- <- <- <-; injection E' as <- <- <- <- <- <-. split; [reflexivity|]. split; [exact Ha1|]. split; assumption.
+  Qed.
+
+  Lemma run_rel s0 s0' : forall ins d a a' store tr tr' raw,
+    Inv s0 d a store tr -> Inv s0' d a' store tr' -> aeq a a' ->
+    forall st d' a2 store' trf rawf,
+    run rmatch compress sc ins d a store tr raw = Ok (st, d', a2, store', trf, rawf) ->
+    exists a2' o, trf = tr ++ o /\ aeq a2 a2' /\
+      run rmatch compress sc ins d a' store tr' raw = Ok (st, d', a2', store', tr' ++ o, rawf).
+  Proof.
+    induction ins as [|i r IH]; intros d a a' store tr tr' raw HI HI' Ha st d' a2 store' trf rawf H; cbn [run] in *.
+    - injection H as <- <- <- <- <- <-. exists a', []. rewrite !app_nil_r. auto.
+    - destruct (step1_rel s0 s0' i d a a' store tr tr' HI HI' Ha) as (st1 & d1 & b & b' & store1 & o & evs & E & E' & Hb & Hout & Hout').
+      rewrite E in H. rewrite E'. destruct st1.
+      + cbn [outcome_ok] in Hout, Hout'.
+        destruct (IH d1 b b' store1 (tr ++ o) (tr' ++ o) (raw ++ evs) Hout Hout' Hb st d' a2 store' trf rawf H) as (a2' & o2 & -> & Ha2 & Hr).
+        exists a2', (o ++ o2). rewrite !app_assoc. auto.
+      + injection H as <- <- <- <- <- <-. exists b', o. auto.
+      + injection H as <- <- <- <- <- <-. exists b', o. auto.
+  Qed.
 End Rel.
